@@ -1465,7 +1465,12 @@ func (s *SelectStatement) RewriteRegexConditions() {
 		}
 
 		// Handle regex-based condition.
-		rhs := be.RHS.(*RegexLiteral) // This must be a regex.
+		rhs, ok := be.RHS.(*RegexLiteral)
+		if !ok {
+			// The parser accepts a regex operand that is part of a larger
+			// expression (a =~ /re/ + 1); there is nothing to simplify then.
+			return e
+		}
 
 		vals, ok := matchExactRegex(rhs.Val.String())
 		if !ok {
